@@ -1882,5 +1882,8 @@ def replay(ctx, data):
         print("replay: broken obligation / correspondence:", data.get("broken_obligations"), dis)
         return 1
     for v in ctx.violations:
-        print("oracle:", v["signature"], "-", v["what"], v["input"].get("finding"))
-    return 1 if ctx.violations else 0
+        known = v["signature"] in (SIG_FLAG_INST, SIG_FLAG_STAT)
+        print("oracle%s:" % (" (recorded finding)" if known else ""), v["signature"], "-", v["what"],
+              v["input"].get("finding"))
+    # a replay fails on what is not a recorded finding of the unchanged tree
+    return 1 if any(v["signature"] not in (SIG_FLAG_INST, SIG_FLAG_STAT) for v in ctx.violations) else 0
